@@ -11,6 +11,9 @@ class LibBase:
     def call_func(self, ex, fv, args, st, node):
         return None
 
+    def self_obj(self, ex, st):
+        raise Unsupported("the object under verification used as a value")
+
     def inline_accessor(self, ex, name, args, kw, st, lineno):
         """a method of the class under verification that has no contract, takes no argument and whose body is a single
         `return <expression>` (after docstrings and prints are dropped) is evaluated in place: mechanical inlining of a
